@@ -26,6 +26,11 @@ def cases_for(ctx, focus_limits):
             # a Markov structure over a model with transitions at the top levels (9 / 10), expanded at levels above 10
             import itertools
             om = gen_omen.gen_omen(rng, ngram=2, nletters=2, maxlen_extra=rng.choice([1, 2, 3]), levels=rng.choice([[10], [0, 10], [9, 10]]))
+            if i == 4:
+                # whatever the seed: an initial n-gram, a transition and a length at the highest level (10) next to cheap ones, and every
+                # level from 10 upwards that holds a string is expanded (`ab` = 0 + 10, `ba` = 10 + 0, `aab` = 10 + 0 + 0 + 10, ...)
+                om = {'ngram': 2, 'alphabet': ['a', 'b'], 'ip': [[0, 'a'], [10, 'b']], 'ep': [[0, 'a'], [0, 'b']],
+                      'cp': [[0, 'aa'], [10, 'ab'], [0, 'ba'], [1, 'bb']], 'ln': [10, 0, 10, 1], 'keyspace': []}
             lv = set()
             for ln_ in range(om['ngram'], len(om['ln']) + 1):
                 for t_ in itertools.product(om['alphabet'], repeat=ln_):
@@ -33,6 +38,8 @@ def cases_for(ctx, focus_limits):
             high = sorted(l for l in lv if l >= 10) or sorted(lv) or [1]
             spec = gen_rulesets.gen_ruleset(rng, omen=om, max_vals=3, max_pos=3, markov=True, markov_levels=high)
             dist['high_level_markov'] = dist.get('high_level_markov', 0) + 1
+            if i == 4:
+                spec['omen_prob'] = [[str(L), repr(0.5 ** (k + 1))] for k, L in enumerate(high[:12])]
         elif i == 0:
             # one grammar object expands Markov levels 1..8 of a three-letter model one after the other (as a session does): the memo
             # table filled by earlier levels is in use for the later ones
@@ -76,13 +83,13 @@ def cases_for(ctx, focus_limits):
         exp += ['ok'] * len(gops)
         nodes = list(gen_rulesets.all_nodes(grid))
         rng.shuffle(nodes)
-        if i in (0, 1, 2, 3):
+        if i in (0, 1, 2, 3, 4):
             mnodes = sorted((n_ for n_ in nodes if grid[n_[0]][2] and grid[n_[0]][2][0] == 'M'), key=lambda n_: n_[1])
             nodes = mnodes + [n_ for n_ in nodes if n_ not in mnodes][:3]
-        for b, idx in (nodes if i in (0, 1, 2, 3) else nodes[:ctx.scale(5, 10)]):
+        for b, idx in (nodes if i in (0, 1, 2, 3, 4) else nodes[:ctx.scale(5, 10)]):
             pt = [(r, j) for r, j in zip(grid[b][2], idx)]
             total = corr_expand.pt_size(pcfg, pt)
-            if total > 400 and i not in (0, 1, 2, 3):
+            if total > 400 and i not in (0, 1, 2, 3, 4):
                 continue
             limits = corr_expand.limits_for(total, rng, ctx.quick) if focus_limits else [None]
             want = corr_expand.product_oracle(pcfg, pt)
